@@ -28,7 +28,8 @@ Record ctx := {
   x_recvq : Z;              (* receive quota before the packet *)
   x_acl_write : bool;       (* write permission on the PUBLISH topic *)
   x_infl : option N;        (* type of the in-flight record stored under the packet's id, if any *)
-  x_filters : list fctx }.
+  x_filters : list fctx;
+  x_too_large : bool }.     (* the required response exceeds the Maximum Packet Size the (v5) client announced *)
 
 Definition ack_type_for_qos (qos : N) : N := if qos =? 2 then T_PUBREC else T_PUBACK.
 
@@ -94,6 +95,13 @@ Definition model_response (c : ctx) (p : pkt) : resp :=
   else if t =? T_UNSUBSCRIBE then model_unsubscribe c p
   else if t =? T_PINGREQ then RPing
   else RNone.
+
+(* clients.go WritePacket refuses a packet larger than the client's Maximum Packet Size (ErrPacketTooLarge);
+   receivePacket turns the error into DISCONNECT 0x95 and the end of the connection: the request is not answered
+   but the connection is closed, which the property allows *)
+Definition model_response_sized (c : ctx) (p : pkt) : resp :=
+  let r := model_response c p in
+  if x_too_large c then match r with RNone => RNone | _ => RClose end else r.
 
 (* ---------- specification (from the property text) ---------- *)
 
@@ -192,7 +200,7 @@ Definition obs_matches_model (ver : N) (r : resp) (outs : list pkt) (closed : bo
   end.
 
 (* ---------- engine ----------
-   case = (ver maxqos obscure topic_valid recvq acl_write infl filters request outs closed)
+   case = (ver maxqos obscure topic_valid recvq acl_write infl filters request outs closed too_large)
      infl    = () or (type)        filters = list of (valid shared acl existed)
      request = pkt                 outs = list of pkt received on the requesting connection *)
 Definition as_fctx (v : val) : option fctx :=
@@ -214,17 +222,17 @@ Definition class_tag (p : pkt) : bytes :=
 (* ENGINE respond Session.Respond.respond_engine *)
 Definition respond_engine (v : val) : val :=
   match v with
-  | VL [VN ver; VN maxqos; obscure; tv; rq; aw; VL infl; VL fl; req; VL outs; closed] =>
+  | VL [VN ver; VN maxqos; obscure; tv; rq; aw; VL infl; VL fl; req; VL outs; closed; toolarge] =>
       match as_bool obscure, as_bool tv, as_Z rq, as_bool aw, map_opt as_fctx fl, as_pkt req,
-            map_opt as_pkt outs, as_bool closed with
-      | Some ob, Some tv', Some rq', Some aw', Some fl', Some p, Some outs', Some cl =>
+            map_opt as_pkt outs, as_bool closed, as_bool toolarge with
+      | Some ob, Some tv', Some rq', Some aw', Some fl', Some p, Some outs', Some cl, Some tl =>
           let infl' := match infl with [VN t] => Some t | _ => None end in
           let c := {| x_ver := ver; x_maxqos := maxqos; x_obscure := ob; x_topic_valid := tv'; x_recvq := rq';
-                      x_acl_write := aw'; x_infl := infl'; x_filters := fl' |} in
-          let tg := class_tag p in
+                      x_acl_write := aw'; x_infl := infl'; x_filters := fl'; x_too_large := tl |} in
+          let tg := if tl then tag "response-too-large" else class_tag p in
           if negb (wf_request c p) then verdict 0 (tag "not-wellformed") false []
           else
-            let m := model_response c p in
+            let m := model_response_sized c p in
             let nontriv := match required p with Some _ => true | None => false end in
             if negb (obs_ok ver p outs' cl) then
               if KF_C07_pubrel_error c p then verdict 3 tg nontriv [VB (tag "KF_C07_pubrel_error")]
@@ -232,7 +240,7 @@ Definition respond_engine (v : val) : val :=
               else verdict 1 tg nontriv []
             else if obs_matches_model ver m outs' cl then verdict 0 tg nontriv []
             else verdict 2 tg nontriv []
-      | _, _, _, _, _, _, _, _ => bad_case
+      | _, _, _, _, _, _, _, _, _ => bad_case
       end
   | _ => bad_case
   end.
